@@ -42,11 +42,19 @@ func verif_C07_data_cut() {
 	var rerr error
 	called := false
 	be := &vbackend{lmtpSession: perRcpt}
+	lateEOF := false
 	consume := func(r io.Reader) error {
 		called = true
 		got, rerr = verifReadAll(r, 3)
 		if rerr == io.EOF {
 			return nil
+		}
+		// a backend (or the bufio / io.Copy plumbing inside it) may well read
+		// again after an error: the reader must not turn into a clean end
+		for i := 0; i < 2; i++ {
+			if n, e := r.Read(make([]byte, 3)); e == io.EOF || n > 0 {
+				lateEOF = true
+			}
 		}
 		return rerr
 	}
@@ -92,6 +100,7 @@ func verif_C07_data_cut() {
 		verifAssert(positives == 0, "C07.incomplete-message-no-positive-reply")
 		verifAssert(verifIsPrefix(got, body), "C07.partial-octets-are-a-prefix")
 	}
+	verifAssert(!lateEOF, "C07.reader-stays-failed-after-an-error")
 	verifAssert(verifGoroutinesAlive() == 0, "C07.no-goroutine-left")
 }
 
